@@ -74,4 +74,35 @@ def runFlags {ε β : Type} (norm : G → G) (resetInFinally : Bool) (unprotecte
 def runNowN {ε β : Type} (norm : G → G) (compute : List (Obj G V) → Except ε β) (objs : List (Obj G V)) :=
   runFlags norm Gen.Exits.resetInFinally Gen.Exits.unprotectedSitesAfterTiling Gen.Exits.restoreBySlicing compute objs
 
+/-! ### (audit2) the fourth regenerated fact: WHICH arrays the restore puts back
+
+`restore false orig _ = orig` builds the assumption "the restore writes the arrays saved before the tiling" into the model:
+a save taken AFTER the tiling loop leaves `resetInFinally`, `unprotectedSitesAfterTiling` and `restoreBySlicing` as they are,
+and on the real objects leaves every tiled path in place.  `Gen.Exits.savedBeforeTiling` reads that fact off the AST; here it
+is the argument `savedBefore` (`false`: what is put back is what the objects hold after the tiling). -/
+
+def restoreS (bySlicing savedBefore : Bool) (orig tiled : Obj G V) : Obj G V :=
+  if bySlicing then
+    { pos := tiled.pos.take orig.pos.length, ori := tiled.ori.take orig.pos.length }
+  else if savedBefore then orig else tiled
+
+def runS {ε β : Type} (norm : G → G) (inFinally bySlicing savedBefore : Bool) (compute : List (Obj G V) → Except ε β)
+    (objs : List (Obj G V)) : List (Obj G V) × Except ε β :=
+  let M := (objs.map (·.pos.length)).foldl max 0
+  let tiled := objs.map (tileN norm M)
+  let restored := List.zipWith (restoreS bySlicing savedBefore) objs tiled
+  match compute tiled with
+  | .ok b => (restored, .ok b)
+  | .error e => if inFinally then (restored, .error e) else (tiled, .error e)
+
+/-- getBH_level2 as a function of the FOUR facts `gen_Exits` reads off the AST -/
+def runFlags4 {ε β : Type} (norm : G → G) (resetInFinally : Bool) (unprotected : Nat) (bySlicing savedBefore : Bool)
+    (compute : List (Obj G V) → Except ε β) (objs : List (Obj G V)) :=
+  runS norm (resetInFinally && unprotected == 0) bySlicing savedBefore compute objs
+
+/-- the code as it is now, all four facts regenerated -/
+def runNowS {ε β : Type} (norm : G → G) (compute : List (Obj G V) → Except ε β) (objs : List (Obj G V)) :=
+  runFlags4 norm Gen.Exits.resetInFinally Gen.Exits.unprotectedSitesAfterTiling Gen.Exits.restoreBySlicing
+    Gen.Exits.savedBeforeTiling compute objs
+
 end MagpyVerif.Level2State
